@@ -6,7 +6,6 @@ import (
 	"reflect"
 
 	gpb "github.com/openconfig/gnmi/proto/gnmi"
-	"github.com/openconfig/ygot/ygot"
 	"github.com/openconfig/ygot/ytypes"
 )
 
@@ -63,7 +62,7 @@ func H_C12_delete() {
 	if symBool("ll") {
 		c.Ll = []string{"x"}
 	}
-	before, _ := ygot.DeepCopy(d)
+	before := symSnapshot(d) // engine-made copy, independent of ygot.DeepCopy
 	b := before.(*Device).C
 	schema := SchemaTree["Device"]
 	var p *gpb.Path
@@ -131,7 +130,7 @@ func H_C12_delete() {
 	keep(b.Bin != nil, c.Bin != nil, "a set zero-length binary leaf outside the path must stay")
 	keep(b.Ll != nil, len(c.Ll) == 1, "the leaf-list outside the path must stay")
 	// idempotence
-	snap, _ := ygot.DeepCopy(d)
+	snap := symSnapshot(d)
 	err = ytypes.DeleteNode(schema, d, p)
 	if d.C == nil {
 		d.C = &V_C{}
